@@ -38,7 +38,7 @@ Require Import OV.Graph.Syntax OV.Graph.Sem OV.Script.Syntax OV.Script.Sets OV.G
                OV.Script.Translate OV.Script.PySem OV.Script.TranslateProofs OV.Script.TablesProofs OV.Script.TranslateExamples
                OV.Script.AnalysisProofs OV.Script.LivenessProofs OV.Script.TranslateIfProofs OV.Script.TranslateIfExamples OV.Script.ExposedProofs
                OV.Script.TranslateForDefs OV.Script.TranslateForProofs OV.Script.TranslateForExamples
-               OV.Script.TranslateNestDefs OV.Script.TranslateNestProofs OV.Script.TranslateNestExamples.
+               OV.Script.TranslateNestDefs OV.Script.TranslateNestProofs OV.Script.TranslateNestExamples OV.Script.LivenessLoopProofs.
 Import ListNotations.
 Local Open Scope string_scope.
 
@@ -179,6 +179,20 @@ Print Assumptions C01_forloop_nonvacuous.
    module-level constant, and the body does not read a variable called infinite_loop), and its body is a list of
    class statements (nested blocks checked recursively) optionally ended by `if cn: break` with an empty else.
    A `for` bound is a tensor-valued expression or an integer literal (`range(3)`).
+   Side conditions that remain at every loop (loop_side / stmt_ok; L = live before the loop, Lf = live at the end of
+   the body = the liveness the converter uses inside the body, Lb = live at the start of the body, A = assigned in the
+   body, S = A /\ (exposed_uses(body) \/ live-out) = the loop state), and why:
+     (a) S <= Lf and (b) Lb \ (iv :: S) <= L \ A -- the loop state is chosen by exposed_uses, the outputs of the Ifs
+         inside the body by the liveness: two independent analyses of analysis.py whose agreement is proved for
+         loop-free code only (C01_exposed_uses_sound_loopfree_partial); a body with nested loops needs the check;
+     (c) the loop variable is not used after the loop and not assigned in it -- Python keeps it, the ONNX Loop does not
+         export it (C01_exposed_uses_zero_trip_refuted);
+     (d) no state variable is also a module-level constant; `while`: the body does not read a variable called
+         infinite_loop, the condition variable is live at the end of the body and is not a module constant;
+     (e) `for`: the variables of the bound are live before the loop -- implied by the analysis once the bound is kept
+         live (C01_live_in_sound_for_bound_variant), kept as a check so that the theorem covers both readings.
+   No longer hypotheses (they excluded the zero-trip liveness defect, repaired in the code): Lf <= L and live-out <= Lf
+   are now lemmas about the generated analysis (loop_live_facts_for / loop_live_facts_while).
    Kernel laws (hypotheses, for arbitrary kernels otherwise): Identity, truth (of_bool b) = Some b, Not, And, the trip
    count read from Constant(k) is k; while_limit <= limit; when wb = true (a `while` with a trailing break is in the class) every value is readable as a
    condition.  The graph is evaluated with fuel above the converter's nesting bound. *)
@@ -325,6 +339,44 @@ Theorem C01_live_in_sound_for_bound_variant :
    forall cic fuel i b body lo L, live_stmt cic fuel (SFor i b body) lo = Some L -> incl (used_vars b) L).
 Proof. exact (conj live_in_sound_for_bound_refuted live_in_for_bound_repaired). Qed.
 Print Assumptions C01_live_in_sound_for_bound_variant.
+
+(* Liveness WITH loops (class ll_stmt: for / while / if nested to any depth, `break` only as the last thing a loop body
+   does -- the only placement the converter accepts --, return anywhere): two environments that agree on the variables
+   live before a statement run it to outcomes that agree on the variables live after it.  Hypothesis: the variables of
+   a `for` bound are live before the loop (true of the analysis once the bound is kept live, next theorem).  Proof:
+   the fixpoint iteration returns L = F(c) with L = c as sets; agreement on L is a loop invariant.  Not covered: a
+   `break` followed by further statements of the loop body (Python allows it, the converter refuses it). *)
+Theorem C01_live_in_sound_loops_partial :
+  forall (V : Type) sem truth trip of_nat while_limit globals cic afuel K,
+    (forall c b pe v, cic c = Some b -> eval_expr V sem globals pe c = Some v -> ptruth V truth v = Some b) ->
+    (forall c b, cic c = Some b -> incl (used_vars c) K) ->
+    (forall i b body lo L, live_stmt cic afuel (SFor i b body) lo = Some L -> incl (used_vars b) L) ->
+    forall fuel s lo li pe1 pe2 o1,
+      ll_stmt true s = true ->
+      live_stmt cic afuel s lo = Some li ->
+      (forall x, In x li \/ In x K -> plookup V pe1 x = plookup V pe2 x) ->
+      exec_block V sem truth trip of_nat while_limit globals fuel [s] pe1 = Some o1 ->
+      exists o2, exec_block V sem truth trip of_nat while_limit globals fuel [s] pe2 = Some o2 /\
+        match o1, o2 with
+        | ONormal _ a, ONormal _ b | OBreak _ a, OBreak _ b => forall x, In x lo \/ In x K -> plookup V a x = plookup V b x
+        | OReturn _ v1, OReturn _ v2 => v1 = v2
+        | _, _ => False
+        end.
+Proof. exact live_in_sound_loops. Qed.
+Print Assumptions C01_live_in_sound_loops_partial.
+
+(* repaired analysis (for_bound_live = true): no hypothesis about the bound is left *)
+Theorem C01_live_in_sound_loops_repaired :
+  for_bound_live = true -> live_in_sound_statement (fun s => ll_stmt true s = true).
+Proof. exact live_in_sound_loops_statement. Qed.
+Print Assumptions C01_live_in_sound_loops_repaired.
+
+Theorem C01_live_in_sound_loops_nonvacuous :
+  ll_stmt true forb_stmt = true /\
+  (exists li, live_stmt (fun _ => None) 5 forb_stmt ["y"] = Some li) /\
+  (exists o, forb_exec forb_pe1 = Some o).
+Proof. exact live_loops_nonvacuous. Qed.
+Print Assumptions C01_live_in_sound_loops_nonvacuous.
 
 Theorem C01_live_in_sound_full_variant : for_bound_live = false -> ~ C01_live_in_sound_full.
 Proof. exact live_in_sound_full_refuted. Qed.
